@@ -121,6 +121,10 @@ def specStep (sh : Shadow) (o : Proto.Op) : Except String Shadow := do
     -- handed-out buffers must survive
     for (id, _) in sh.out do
       if !(sh.live.any (·.1 == id)) then throw s!"clearCache released buffer {id} that is in use"
+    -- everything that is not in use (every free list) must have gone back: what remains is one list
+    -- node and one buffer per handed-out buffer
+    if sh.live.length != 2 * sh.out.length then
+      throw s!"after clearCache {sh.live.length} underlying blocks are held for {sh.out.length} buffers in use (free lists not fully returned)"
     return sh
   | ["clearall"] =>
     let rest := sh.live.filter (fun (id, _) => some id != sh.table)
